@@ -6,9 +6,23 @@ instantiated with the regenerated source facts (`factsP`, from `Facts.pa.*`); th
 `Gotlcp.Spec.PA`.  Statements quantify over every transport script (every segmentation of
 every byte stream, with read time-outs anywhere), every configuration shape, every sequence
 of read-buffer sizes and every number of caller retries.
+
+Third round: the retry statements are (also) about the PUBLIC object the application holds
+(`Model.PA.Pub`, `call` = `ProtocolSwitchServerConn.Read/Write` through `conn()`):
+  * `C20_facts_public`        what `conn()` / `detect()` keep of a detection, as extracted
+  * `C20_public_sound`        every answer of every call is an I/O error or the documented verdict
+  * `C20_public_retry_routes` a client that sent a full header is routed after at most as many
+                              failed calls as the transport had read time-outs; failed calls are
+                              time-outs, nothing else
+  * `C20_facts_locks`, `C20_unblockers_never_wait`, `C20_parked_first_call_can_be_closed`
+                              Close and the deadline setters need no mutex that a goroutine
+                              parked in the header peek (or in the selected stack) holds
 -/
 import Gotlcp.Lemmas.PA
+import Gotlcp.Lemmas.PARetry
+import Gotlcp.Lemmas.Locks
 import Gotlcp.Model.PAFacts
+import Gotlcp.Model.PALock
 import Gotlcp.Generated.Facts
 
 set_option linter.unusedSimpArgs false
@@ -37,6 +51,16 @@ theorem C20_facts :
     Facts.pa.dispatchOnMajor = true ∧ Facts.pa.dispatchDefaultUnsupported = true ∧
     Facts.pa.detectReturnsHeaderErr = true ∧ Facts.pa.unsupportedSentinelTyped = true ∧
     Facts.missing = [] := by decide
+
+/-- what the public object keeps of a detection: `Read` and `Write` go through `conn()`; `conn()`
+returns the installed stack or else runs `detect()` — at EVERY call, no other state is consulted
+first; no field of the object besides `wrapped` is written on the way (no stored error, no
+once-only guard); `wrapped` is assigned by the two constructor rows of the dispatch and nowhere
+else.  Hence the model's `call` is `detect`. -/
+theorem C20_facts_public :
+    Facts.pa.callsViaConn = ["Read", "Write"] ∧ Facts.pa.connDetectsWheneverUnwrapped = true ∧
+    Facts.pa.failureKeptFields = [] ∧ Facts.pa.wrappedOnlyFromDispatch = true ∧
+    factsP.retriesDetect = true := by decide
 
 theorem factsP_valid : Valid factsP := ⟨by decide, by decide, by decide⟩
 
@@ -302,6 +326,175 @@ theorem C20_short_error_kind (evs : List Ev) (cfg : Cfg)
 
 example : (attempts factsP ⟨true, true⟩ 3 (fresh [.data [22], .timeout, .data [1, 1]])).1
     = [.io .timeout, .io .unexpectedEOF, .io .eof] := by decide
+
+/-! ### the public object: `Read` / `Write` of the connection `Accept` returned -/
+
+/-- a fresh public object over the transport script `evs` -/
+def pub (evs : List Ev) : Pub := { c := fresh evs }
+
+theorem pub_inv (cfg : Cfg) (evs : List Ev) : PubInv factsP cfg (pending evs) (pub evs) :=
+  ⟨Or.inl (by simp [pub, fresh, isFresh]), by simp [pub, fresh, accounted, isFresh], Or.inl rfl⟩
+
+/-- **Every call on the public object answers soundly.**  Whatever the transport script, the
+configuration shape and the number `k` of `Read` / `Write` calls the application makes (going on
+after errors, going on after it is served): all `k` calls return; none panics; every answer is
+an I/O error or the documented verdict for the FIRST record's major version byte — and a verdict
+is only ever given when the client did send a full header. -/
+theorem C20_public_sound (evs : List Ev) (cfg : Cfg) (k : Nat) :
+    let r := calls factsP cfg k (pub evs)
+    r.1.length = k ∧ (∀ x ∈ r.1, x ≠ .panic) ∧
+    (∀ x ∈ r.1, (∃ e, x = .io e) ∨
+      ∃ v, Spec.PA.routeOfStream cfg.tlcp cfg.tls (pending evs) = some v ∧ x = ofSpec v) := by
+  have hmi : factsP.majorIndex = 1 := by decide
+  have hhl : factsP.headerLen = 5 := by decide
+  obtain ⟨h1, h2, _⟩ := calls_spec factsP cfg factsP_valid (by decide) C20_facts_public.2.2.2.2
+    (pending evs) k (pub evs) (pub_inv cfg evs)
+  have h3 : ∀ x ∈ (calls factsP cfg k (pub evs)).1, (∃ e, x = .io e) ∨
+      ∃ v, Spec.PA.routeOfStream cfg.tlcp cfg.tls (pending evs) = some v ∧ x = ofSpec v := by
+    intro x hx
+    rcases h2 x hx with h | ⟨mj, hidx, hlen, hr⟩
+    · exact Or.inl h
+    · refine Or.inr ⟨Spec.PA.route cfg.tlcp cfg.tls mj, ?_, ?_⟩
+      · unfold Spec.PA.routeOfStream Spec.PA.recordHeaderLen
+        rw [hhl] at hlen
+        rw [hmi] at hidx
+        have : ¬ (pending evs).length < 5 := by omega
+        simp [this, hidx]
+      · rw [hr]; exact C20_dispatch cfg mj
+  refine ⟨h1, ?_, h3⟩
+  intro x hx
+  rcases h3 x hx with ⟨e, he⟩ | ⟨v, _, hv⟩
+  · rw [he]; simp
+  · rw [hv]; cases v <;> simp [ofSpec]
+
+/-- **A retry after a failed detection routes.**  The client sent a full record header — in
+whatever pieces, with read time-outs (expired read deadlines) wherever the script has them.
+Then on the public object: a call fails only with a time-out; there are at most as many failed
+calls as the script has time-outs (each failed call has consumed one); hence an application
+that calls `Read` / `Write` once more than that IS answered with the documented verdict for the
+first record's major version byte.  Nothing of a failed attempt sticks. -/
+theorem C20_public_retry_routes (evs : List Ev) (cfg : Cfg) (k : Nat)
+    (hfull : 5 ≤ (pending evs).length) :
+    let r := calls factsP cfg k (pub evs)
+    (∀ x ∈ r.1, ∀ e, x = .io e → e = .timeout) ∧
+    (r.1.filter Route.isIO).length ≤ nTimeouts evs ∧
+    (nTimeouts evs < k → ∃ x ∈ r.1, ∃ v,
+      Spec.PA.routeOfStream cfg.tlcp cfg.tls (pending evs) = some v ∧ x = ofSpec v) := by
+  have hhl : factsP.headerLen = 5 := by decide
+  obtain ⟨h1, _, h3⟩ := calls_spec factsP cfg factsP_valid (by decide) C20_facts_public.2.2.2.2
+    (pending evs) k (pub evs) (pub_inv cfg evs)
+  obtain ⟨j1, j2⟩ := h3 (by rw [hhl]; exact hfull)
+  obtain ⟨_, _, s3⟩ := C20_public_sound evs cfg k
+  have j2' : ((calls factsP cfg k (pub evs)).1.filter Route.isIO).length ≤ nTimeouts evs := by
+    have : nTimeouts (pub evs).c.p.evs = nTimeouts evs := rfl
+    omega
+  refine ⟨j1, j2', ?_⟩
+  intro hk
+  -- otherwise all k answers were I/O errors: more failed calls than time-outs
+  apply Classical.byContradiction
+  intro hno
+  have hall : ∀ x ∈ (calls factsP cfg k (pub evs)).1, Route.isIO x = true := by
+    intro x hx
+    rcases s3 x hx with ⟨e, he⟩ | ⟨v, hv, hxv⟩
+    · rw [he]; rfl
+    · exact absurd ⟨x, hx, v, hv, hxv⟩ hno
+  have : (calls factsP cfg k (pub evs)).1.filter Route.isIO = (calls factsP cfg k (pub evs)).1 :=
+    List.filter_eq_self.mpr hall
+  rw [this, h1] at j2'
+  omega
+
+/-- non-vacuity: one header byte, an expired deadline, then the rest — first call a time-out,
+second call served by the TLCP stack, and it stays so -/
+example : (calls factsP ⟨true, true⟩ 3 (pub [.data [0x16], .timeout, .data [1, 1, 0, 5, 9]])).1
+    = [.io .timeout, .tlcp, .tlcp] := by decide
+
+/-- the negation: when `conn()` keeps the outcome of the first detection for good (a once-only
+idiom, a stored error — `retriesDetect := false`) the same client is never served -/
+example : (calls { factsP with retriesDetect := false } ⟨true, true⟩ 3
+      (pub [.data [0x16], .timeout, .data [1, 1, 0, 5, 9]])).1
+    = [.io .timeout, .io .timeout, .io .timeout] := by decide
+
+/-! ### Close and the deadline setters while the first call is parked -/
+
+/-- what the extracted programs say: the object embeds the raw connection it was built on; the
+four calls that get a parked goroutine back are straight-line, balanced programs that acquire no
+mutex which ANY method of the object holds across a transport read, a transport write or a call
+into the selected stack's own I/O. -/
+theorem C20_facts_locks :
+    Facts.pa.swEmbedsRawConn = true ∧
+    Facts.pa.swUnblockers.map (·.1) = ["Close", "SetDeadline", "SetReadDeadline", "SetWriteDeadline"] ∧
+    (∀ u ∈ Facts.pa.swUnblockers,
+      Model.Locks.ordered id [] (Model.Locks.ofEvents Unit u.2) = true ∧
+      ∀ l ∈ acquiresEv u.2, ∀ p ∈ Facts.pa.swProgs, l ∉ Model.Locks.heldAtIO [] p.2) := by decide
+
+theorem acquires_ofEvents (evs : List (Nat × Nat)) :
+    Lemmas.Locks.acquires (Model.Locks.ofEvents Unit evs) = acquiresEv evs := by
+  induction evs with
+  | nil => rfl
+  | cons e r ih =>
+    obtain ⟨k, l⟩ := e
+    match k with
+    | 0 => simp [Model.Locks.ofEvents, Lemmas.Locks.acquires, acquiresEv, ih]
+    | 1 => simp [Model.Locks.ofEvents, Lemmas.Locks.acquires, acquiresEv, ih]
+    | k + 2 => simp [Model.Locks.ofEvents, Lemmas.Locks.acquires, acquiresEv, ih]
+
+/-- **Close and the deadline setters never wait.**  Whatever the other goroutines using the
+connection are parked on — each holding only mutexes that the extracted programs hold across
+transport I/O, e.g. the first `Read` inside `detect()` waiting for the client's header with
+`c.lock` held — a goroutine calling `Close`, `SetDeadline`, `SetReadDeadline` or
+`SetWriteDeadline` on the public object runs to the END of the call on its own.  (That the closed
+transport / the expired deadline then makes the parked call return an error is the transport's
+contract and a runtime observation: phase `close`.) -/
+theorem C20_unblockers_never_wait (name : String)
+    (hname : name ∈ ["Close", "SetDeadline", "SetReadDeadline", "SetWriteDeadline"])
+    (a b : List (Model.Locks.Thread Unit))
+    (hparked : ∀ u ∈ a ++ b, ∀ l ∈ u.held, ∃ p ∈ Facts.pa.swProgs, l ∈ Model.Locks.heldAtIO [] p.2)
+    (sh : Model.Locks.Shared Unit) :
+    ∃ th' sh', Model.Locks.Reach (Model.Locks.LockM Unit)
+        ⟨a ++ ({ prog := Model.Locks.ofEvents Unit (Model.Locks.lookupProg Facts.pa.swUnblockers name) } :
+          Model.Locks.Thread Unit) :: b, sh⟩
+        ⟨a ++ th' :: b, sh'⟩ ∧ th'.prog = [] := by
+  obtain ⟨_, hnames, hall⟩ := C20_facts_locks
+  -- the looked-up program is one of the extracted ones
+  have hmem : ∃ u ∈ Facts.pa.swUnblockers, u.2 = Model.Locks.lookupProg Facts.pa.swUnblockers name := by
+    have hin : name ∈ Facts.pa.swUnblockers.map (·.1) := by rw [hnames]; exact hname
+    obtain ⟨q, hq, hqn⟩ := List.mem_map.mp hin
+    unfold Model.Locks.lookupProg
+    cases hf : Facts.pa.swUnblockers.find? (fun p => p.1 == name) with
+    | none =>
+      have := List.find?_eq_none.mp hf q hq
+      simp [hqn] at this
+    | some r => exact ⟨r, List.mem_of_find?_eq_some hf, rfl⟩
+  obtain ⟨u, hu, hue⟩ := hmem
+  obtain ⟨hord, hdisj⟩ := hall u hu
+  rw [← hue]
+  apply Lemmas.Locks.solo_run id a b (Model.Locks.ofEvents Unit u.2) [] _ sh
+  · simp
+  · exact hord
+  · intro t ht l hl hacq
+    rw [acquires_ofEvents] at hacq
+    obtain ⟨p, hp, hheld⟩ := hparked t ht l hl
+    exact hdisj l hacq p hp hheld
+
+/-- the scenario of the property's last sentence, on the extracted programs: a goroutine parked
+in its first `Read` or `Write` — in the header peek (transport read under `c.lock`) or, once
+routed, inside the selected stack — and ANOTHER goroutine calling Close or a deadline setter:
+that call returns.  (Finite: 2 methods x 2 parking places x 4 calls; this is the function the
+oracle predicts phase `close` with.) -/
+theorem C20_parked_first_call_can_be_closed :
+    ∀ m ∈ ["Read", "Write"], ∀ k ∈ [evTransportRead, evIntoStack],
+    ∀ u ∈ ["Close", "SetDeadline", "SetReadDeadline", "SetWriteDeadline"],
+      unblockerReturns Facts.pa.swProgs Facts.pa.swUnblockers m k u = true := by decide
+
+/-- non-vacuity: the first `Read` IS parked with the mutex held … -/
+example : parkAt evTransportRead [] (Model.Locks.lookupProg Facts.pa.swProgs "Read")
+    = some ([0], [(1, 0), (0, 0), (1, 0), (12, 0)]) := by decide
+
+/-- … and a `Close` that first looks the installed stack up under that mutex (`c.lock.Lock();
+w := c.wrapped; c.lock.Unlock(); w.Close() / c.Conn.Close()`) never returns: the parked `Read` is
+waiting for exactly that call -/
+example : unblockerReturns Facts.pa.swProgs
+    [("Close", [(0, 0), (1, 0), (12, 0), (8, 0)])] "Read" evTransportRead "Close" = false := by decide
 
 /-! ### the finding F21 (repaired by `fixes/F21.patch`)
 
